@@ -207,3 +207,58 @@ namespace vh
         return e;
     }
 }
+
+// ---- exact-extent buffers: end-aligned against a PROT_NONE page, so an access one element past the declared
+// extent faults (and an access before the start of an 8-byte-aligned extent lands in a leading guard page too
+// when the size is a multiple of the page size; otherwise in slack that is pattern-filled and checked).
+#include <sys/mman.h>
+namespace vh
+{
+    struct GBuf
+    {
+        uint8_t *base = nullptr;
+        size_t maplen = 0;
+        uint64_t *p = nullptr; // user pointer
+        size_t n = 0;          // elements
+        size_t slack = 0;      // bytes between first usable page start and p
+    };
+    inline GBuf galloc(size_t nelem, uint64_t fill)
+    {
+        GBuf g;
+        size_t ps = 4096, bytes = nelem * 8;
+        size_t pages = (bytes + ps - 1) / ps;
+        if (pages == 0)
+            pages = 1;
+        g.maplen = (pages + 2) * ps;
+        g.base = (uint8_t *)mmap(nullptr, g.maplen, PROT_READ | PROT_WRITE, MAP_PRIVATE | MAP_ANONYMOUS, -1, 0);
+        if (g.base == MAP_FAILED)
+        {
+            perror("mmap");
+            exit(3);
+        }
+        mprotect(g.base, ps, PROT_NONE);
+        mprotect(g.base + (pages + 1) * ps, ps, PROT_NONE);
+        uint8_t *end = g.base + (pages + 1) * ps;
+        g.p = (uint64_t *)(end - bytes);
+        g.n = nelem;
+        g.slack = (size_t)((uint8_t *)g.p - (g.base + ps));
+        memset(g.base + ps, 0xC7, g.slack);
+        for (size_t i = 0; i < nelem; i++)
+            g.p[i] = fill;
+        return g;
+    }
+    inline bool gslack_ok(const GBuf &g)
+    {
+        const uint8_t *s = g.base + 4096;
+        for (size_t i = 0; i < g.slack; i++)
+            if (s[i] != 0xC7)
+                return false;
+        return true;
+    }
+    inline void gfree(GBuf &g)
+    {
+        if (g.base)
+            munmap(g.base, g.maplen);
+        g.base = nullptr;
+    }
+}
